@@ -43,10 +43,17 @@ def sqlite(graph, use_latlon=False, name=None, bulk=True):
         sm.add_nodes(nodes)
         sm.add_edges(edges)
     else:
+        # tile-wise import: every node is offered with ignore_doubles=True, and every label is offered a SECOND time with
+        # other coordinates (the overlapping border of the next tile); "when trying to add the same node, ignore it" -
+        # the content of the map must stay that of the first offer
         for k, p in nodes:
-            sm.add_node(k, p)
+            sm.add_node(k, p, ignore_doubles=True)
+        for i, (k, p) in enumerate(nodes):
+            sm.add_node(k, (p[0] + (0.75 + i) * (1.0 if not use_latlon else 1e-3), p[1] - (1.5 + i) * (1.0 if not use_latlon else 1e-3)), ignore_doubles=True)
         for a, b in edges:
             sm.add_edge(a, b)
+        for a, b in edges[:1]:
+            sm.add_edge(a, b)      # (edges are INSERT OR IGNORE by construction)
     return sm
 
 
@@ -85,6 +92,12 @@ class Metric:
         else:
             dlat = dlon = r
             tl = tlo = tol
+            # exact case: when the four box sides c +/- r are computed without rounding (dyadic inputs), the library's closed
+            # comparison `c - r <= p <= c + r` is decided exactly - a node ON a side is inside, nothing is "either way"
+            from fractions import Fraction as _F
+            if r != float('inf') and all(_F(a) + _F(b) == _F(a + b) for a, b in ((c[0], r), (c[0], -r), (c[1], r), (c[1], -r))):
+                inside = (c[0] - r <= p[0] <= c[0] + r) and (c[1] - r <= p[1] <= c[1] + r)
+                return 1 if inside else -1
         oy, ox = abs(p[0] - c[0]) - dlat, abs(p[1] - c[1]) - dlon
         if oy > tl or ox > tlo:
             return -1
